@@ -20,13 +20,14 @@ Fixpoint srel (a b : sty) {struct a} : bool :=
   | SList e, STuple l => match hom_elem l with Some x => srel e x | None => false end
   | SSet e, SSet e' => srel e e'
   | SMap k v, SMap k' v' => srel k k' && srel v v'
+  | SBundle i ps, SBundle j ps' => sty_eqb (SBundle i ps) (SBundle j ps')
   | _, _ => false
   end.
 
 Fixpoint drel (a b : tty) {struct a} : bool :=
   match a, b with
   | TSignal, _ => true
-  | TTs x, TTs y => srel x y
+  | TTs x, TTs y => srel x y || bundle_is_a y x        (* a TS[Base] position takes a TS[Derived] *)
   | TTss x, TTss y => srel x y
   | TTsl x n, TTsl y n' => ((n =? 0) || (n =? n')) && drel x y
   | TTsd k v, TTsd k' v' => srel k k' && drel v v'
@@ -40,16 +41,17 @@ Definition accepts_in (t' t : tty) : bool := drel (deref t') (deref t).
 
 Lemma srel_refl s : srel s s = true.
 Proof.
-  induction s as [a | l IH | e IH | e IH | k v IHk IHv] using sty_ind'; cbn [srel]; auto.
+  induction s as [a | l IH | e IH | e IH | k v IHk IHv | id ps IH] using sty_ind'; cbn [srel]; auto.
   - apply Z.eqb_refl.
   - apply forall2b_refl. exact IH.
   - rewrite IHk, IHv. auto.
+  - apply sty_eqb_refl.
 Qed.
 
 Lemma drel_refl t : drel t t = true.
 Proof.
   induction t as [s | s | e n IH | k v IH | s p m | nm fs IH | t IH | ] using tty_ind'; cbn [drel]; auto.
-  - apply srel_refl.
+  - rewrite srel_refl. auto.
   - apply srel_refl.
   - rewrite IH, Z.eqb_refl, orb_true_r. auto.
   - rewrite srel_refl, IH. auto.
@@ -61,7 +63,7 @@ Lemma equiv_drel a : forall b, tty_equiv a b = true -> drel a b = true.
 Proof.
   induction a as [s | s | e n IH | k v IH | s p m | nm fs IH | t IH | ] using tty_ind';
     intros [s' | s' | e' n' | k' v' | s' p' m' | nm' fs' | t' | ]; cbn [tty_equiv drel]; try discriminate; auto; intros H.
-  - apply sty_eqb_eq in H. subst. apply srel_refl.
+  - apply sty_eqb_eq in H. subst. rewrite srel_refl. auto.
   - apply sty_eqb_eq in H. subst. apply srel_refl.
   - apply andb_prop in H. destruct H as [H1 H2]. rewrite (IH _ H2), H1, orb_true_r. auto.
   - apply andb_prop in H. destruct H as [H1 H2]. apply sty_eqb_eq in H1. subst. rewrite srel_refl, (IH _ H2). auto.
@@ -96,6 +98,12 @@ Proof. destruct t; cbn [mk_ref deref]; auto. Qed.
 
 Lemma deref_of_stripped t u : strip_refs t = u -> deref t = deref u.
 Proof. intros <-. symmetry. apply deref_strip. Qed.
+
+Lemma drel_of_accepts a b : tty_equiv a b || ts_bundle_is_a b a = true -> drel a b = true.
+Proof.
+  intros H. apply orb_prop in H. destruct H as [H|H]; [apply equiv_drel; auto|].
+  destruct b, a; cbn [ts_bundle_is_a] in H; try discriminate. cbn [drel]. rewrite H. apply orb_true_r.
+Qed.
 
 (* ---- scalar layer ---- *)
 
@@ -175,7 +183,7 @@ Proof.
   - intros H1 H2. inversion H2; subst. rewrite <- (deref_strip t0). apply equiv_drel, equiv_deref. auto.
   - destruct (sresolve sp m) as [s'|] eqn:E; cbn [option_map]; [|discriminate]. intros H1 H2. inversion H2; subst.
     destruct (strip_refs t0) eqn:ES; try discriminate. rewrite (deref_of_stripped _ _ ES). cbn [deref drel].
-    eapply s_subst_rel; eauto.
+    rewrite (s_subst_rel _ _ _ _ H1 E). auto.
   - destruct (sresolve sp m) as [s'|] eqn:E; cbn [option_map]; [|discriminate]. intros H1 H2. inversion H2; subst.
     destruct (strip_refs t0) eqn:ES; try discriminate. rewrite (deref_of_stripped _ _ ES). cbn [deref drel].
     eapply s_subst_rel; eauto.
@@ -211,10 +219,12 @@ Proof.
     intros t0 t'; cbn [iinst].
   - intros H1 H2. rewrite <- (deref_strip t0). eapply t_subst_rel; eauto.
   - cbn [tresolve]. intros H1 H2. inversion H2; subst. unfold input_accepts in H1. rewrite <- (deref_strip t0).
-    destruct t'; try (apply equiv_drel; exact H1). cbn [deref drel]. auto.
+    destruct t'; try (apply drel_of_accepts; exact H1). cbn [deref drel]. auto.
   - cbn [tresolve]. destruct (sresolve sp m) as [s'|] eqn:E; cbn [option_map]; [|discriminate]. intros H1 H2. inversion H2; subst.
     destruct (strip_refs t0) eqn:ES; try discriminate. rewrite (deref_of_stripped _ _ ES). cbn [deref drel].
-    eapply s_subst_rel; eauto.
+    apply orb_prop in H1. destruct H1 as [H1|H1]; [rewrite (s_subst_rel _ _ _ _ H1 E); auto|].
+    destruct sp; cbn [bound_bundle_accepts] in H1; try discriminate. cbn [sresolve] in E. rewrite E in H1. rewrite H1.
+    apply orb_true_r.
   - intros H1 H2. rewrite <- (deref_strip t0). eapply t_subst_rel; eauto.
   - cbn [tresolve]. destruct (tresolve e m) as [e'|] eqn:E1; cbn [obind]; [|discriminate].
     destruct (szresolve sz m) as [n'|] eqn:E2; cbn [option_map]; [|discriminate]. intros H1 H2. inversion H2; subst.
